@@ -281,11 +281,11 @@ class P(Prop):
     open_statements = [
         "IEEE doubles: optimal_rounded_fl proves T2-up-to-rounding for the addition a (+) b = fl(a + b) of ANY rounding function fl on an ordered field that is (1) monotone and (2) within u|x| of x (no associativity; monotonicity of the rounded addition and of the embedding are now derived, not assumed). What stays assumed about binary64 is exactly that the sum of two doubles is fl(exact sum) for such an fl with u = 2^-53 — true of round-to-nearest-even when no sum overflows and no operand is NaN (sums in the subnormal range are exact); Float is opaque in Lean, so (1) and (2) are not proved for the hardware and are what the transfer check on doubles samples, with the same tolerance shape and the generous constant 1e-9",
         "findStopsGlobal: the model (findStopsGlobalPy) reads the observations (x, y, z, t), computes the squared planimetric distances and the durations itself and applies the three tests, the final filter and the identifiers; minCircle is now modelled ON ITS OWN (Model/MinCircle.lean: __welzl, __circle, ENUCoords.__eq__, the random draws as an explicit parameter; stream `mc`, theorems mincircle_*, circle_*), and composed with the reward matrix in the theorems (stops_fit_in_circle_mincircle: table circOfMinCircle, one draw sequence per call, minimality proved, enclosure the only hypothesis); in the DRIVEN findStopsGlobalPy its answers and the temporal resampling `track ** (size/downsampling)` remain parameters: driving the composition would need the draws of every minCircle call of a run (one global random stream shared by all segments) and the code's rounded square roots / complex circumcentre on doubles, so the check still computes the circles with exact rational geometry — except the entries where tracklib's minCircle returns None (recorded from the run) and circles through >= 3 distinct fixes whose exact diameter equals the limit (doubles decide: read off the run) — and takes the resampled track from tracklib; that the circles handed to the model enclose their segments (hypothesis hc of stops_criterion / find_stops_global) is CHECKED by the driver on every case (enclosedB, theorem enclosedB_sound); it is NOT true of tracklib's minCircle in general (theorem mincircle_not_enclosing), nor is minimality (hmin of stops_fit_in_circle): proved only for the leaves (circle_two_minimal, circle_three_minimal) and for inputs of <= 2 fixes (mincircle_small); for >= 3 fixes: every answer that encloses the input IS the minimal circle (mincircle_enclosing_is_minimal; cross-checked on every mc case against the harness's exact geometry), on <= 3 fixes every circle returned does (mincircle_three); for >= 4 fixes which draw sequences give an enclosing answer is open",
-        "minCircle on doubles: the model is exact (squared radii, rational circumcentre); the stream `mc` compares tracklib's doubles with it up to 1e-9 and does not compare inputs where a fix lies exactly on the circle through three other fixes (the code tests it against a centre computed in rounded complex arithmetic: the doubles decide, and the number of draws then differs) — about 30 % of the inputs generated, tagged in the input histogram",
+        "minCircle on doubles: the model is exact (squared radii, rational circumcentre); the stream `mc` compares tracklib's doubles with it up to 1e-9 and does not compare inputs where a fix lies exactly on the circle through three other fixes (the code tests it against a centre computed in rounded complex arithmetic: the doubles decide, and the number of draws then differs) — about 40 % of the inputs generated (lattice fixes are often cocircular), tagged in the input histogram",
         "findStopsGlobal with downsampling > 1: coordinates and times of the resampled track are interpolated doubles on which the code's own doubles (sqrt of a rounded sum, circumcentre, difference of absolute times) are not exact; a case with a value within 1e-9 of a threshold is not judged (tagged in the input histogram). Lengths are compared through their squares in the model (exact for the integer / dyadic tracks generated)",
-        "findStopsGlobal: tracklib's minCircle sometimes returns a circle that does NOT enclose the segment (its three-point case returns the smallest two-point circle containing the third point instead of the circle through the three boundary points Welzl's recursion needs; about 40 %% of the random orders on the five lattice fixes of the witness): a reward is granted where the documented criterion gives 0. The circle returned is recorded from the run and handed to the model as such (the certificate enclosedB then rightly fails); class '%s', judged once it is listed in known_findings.json (findings/C12.json)" % FINDING_LOOSE,
+        "findStopsGlobal: tracklib's minCircle sometimes returns a circle that does NOT enclose the segment (its three-point case returns the smallest two-point circle containing the third point instead of the circle through the three boundary points Welzl's recursion needs; about 40 %% of the random orders on the five lattice fixes of the witness): a reward is granted where the documented criterion gives 0 (the routine's defect is theorem mincircle_not_enclosing about its model; circle_three_minimal / mincircle_three say why it needs four fixes). The circle returned is recorded from the run and handed to the model as such (the certificate enclosedB then rightly fails); class '%s', judged once it is listed in known_findings.json (findings/C12.json)" % FINDING_LOOSE,
         "findStopsGlobal on a track where every altitude of a reported stop is NaN raises ZeroDivisionError (the AVERAGER of no value) after the segmentation was computed: class '%s'; tracks where that can happen are generated once the class is listed in known_findings.json (findings/C12.json)" % FINDING_NANZ,
-        "findStopsGlobal: when tracklib's minCircle returns None for a segment (three collinear boundary points met in some random orders of Welzl's algorithm) the code writes reward 0 where the documented criterion rewards the segment; the model has this case (`small = none`), the oracle demands the optimum of the DOCUMENTED criterion and reports the loss (class '%s')" % FINDING_MINCIRCLE,
+        "findStopsGlobal: when tracklib's minCircle returns None for a segment (three collinear boundary points met in some random orders of Welzl's algorithm) the code writes reward 0 where the documented criterion rewards the segment (theorems mincircle_none, mincircle_none_same_place about the routine's model; mincircle_none_only_collinear: never without three collinear entries); the model has this case (`small = none`), the oracle demands the optimum of the DOCUMENTED criterion and reports the loss (class '%s')" % FINDING_MINCIRCLE,
         "findStops(track, spatial, temporal, MODE_STOPS_GLOBAL, verbose=False) passes `verbose` where findStopsGlobal expects `downsampling`: every stop is reported with id_ini = id_end = 0 (theorem find_stops_dispatch_silent; the model has the dispatcher: findStopsPy); the same positional slip exists for MODE_STOPS_RTK. Class '%s': the identifiers are judged against the track itself once the class is listed in known_findings.json (findings/C12.json); until then these calls are compared with the model only" % FINDING_DISPATCH,
         "findStopsGlobalForRTK (outside the property's anchors): its tests are still exclusive (`<= duration`, `< std_max`) and its source comment documents a factor 0.33 under the root that the code does not have; only the delegation and the correspondence of its matrix construction are checked",
         "simplify's built-in cost functions (modes 4-6: minimum bounding rectangle geometry) are a parameter of the model; the check evaluates the module's own functions with the requested tolerance",
